@@ -38,7 +38,6 @@
 package context
 
 import (
-	"errors"
 	"math/big"
 
 	"github.com/db47h/decimal"
@@ -177,6 +176,16 @@ func (c *Context) Set(z, x *decimal.Decimal) *decimal.Decimal {
 	return c.apply(z.Copy(x))
 }
 
+// catchNaN records err and returns true if err is a decimal.ErrNaN. Any other
+// recovered value is not an error of the context and must be re-panicked.
+func (c *Context) catchNaN(err interface{}) bool {
+	if e, ok := err.(decimal.ErrNaN); ok {
+		c.err = e
+		return true
+	}
+	return false
+}
+
 // apply applies c's precision and rounding mode to z.
 func (c *Context) apply(z *decimal.Decimal) *decimal.Decimal {
 	z.SetMode(c.mode)
@@ -194,7 +203,7 @@ func (c *Context) Add(z, x, y *decimal.Decimal) (r *decimal.Decimal) {
 		}
 		defer func() {
 			if err := recover(); err != nil {
-				if !errors.As(err.(error), &c.err) {
+				if !c.catchNaN(err) {
 					panic(err)
 				}
 				r = z
@@ -212,7 +221,7 @@ func (c *Context) Sub(z, x, y *decimal.Decimal) (r *decimal.Decimal) {
 		}
 		defer func() {
 			if err := recover(); err != nil {
-				if !errors.As(err.(error), &c.err) {
+				if !c.catchNaN(err) {
 					panic(err)
 				}
 				r = z
@@ -231,7 +240,7 @@ func (c *Context) FMA(z, x, y, u *decimal.Decimal) (r *decimal.Decimal) {
 		}
 		defer func() {
 			if err := recover(); err != nil {
-				if !errors.As(err.(error), &c.err) {
+				if !c.catchNaN(err) {
 					panic(err)
 				}
 				r = z
@@ -249,7 +258,7 @@ func (c *Context) Mul(z, x, y *decimal.Decimal) (r *decimal.Decimal) {
 		}
 		defer func() {
 			if err := recover(); err != nil {
-				if !errors.As(err.(error), &c.err) {
+				if !c.catchNaN(err) {
 					panic(err)
 				}
 				r = z
@@ -267,7 +276,7 @@ func (c *Context) Quo(z, x, y *decimal.Decimal) (r *decimal.Decimal) {
 		}
 		defer func() {
 			if err := recover(); err != nil {
-				if !errors.As(err.(error), &c.err) {
+				if !c.catchNaN(err) {
 					panic(err)
 				}
 				r = z
@@ -308,7 +317,7 @@ func (c *Context) Sqrt(z, x *decimal.Decimal) (r *decimal.Decimal) {
 		}
 		defer func() {
 			if err := recover(); err != nil {
-				if !errors.As(err.(error), &c.err) {
+				if !c.catchNaN(err) {
 					panic(err)
 				}
 				r = z
